@@ -68,6 +68,7 @@ def jobs(tier, seed):
     out.append(('log1p-vs-log', dict(kind='log1p', name='log1p', k=0)))
     out.append(('log-exp-roundtrip-on-slice', dict(kind='logslice', name='log', k=0)))
     out.append(('ring-array', dict(kind='ring_array', name='mul', k=0)))
+    out.append(('concrete-witness-negative-base', dict(kind='witness', name='pow', k=0)))
     return out
 
 
@@ -139,6 +140,8 @@ def run_job(job, kind, name, k):
         return on_slice(job, mc, name)
     if kind == 'logslice':
         return log_slice(job, mc)
+    if kind == 'witness':
+        return witness(job)
     return log1p(job, mc)
 
 
@@ -320,6 +323,28 @@ def on_slice(job, mc, name):
     job.prove('z2 component == 0', z3.And(z3.simplify(_rw(r2.r, ax), som=True) == 0, z3.simplify(_rw(r2.i, ax), som=True) == 0), [], info)
 
 
+def witness_failures():
+    """concrete regression witness for a repaired floating-point defect (integer powers / division at negative points);
+    exact arithmetic cannot see it, so this is NOT solver evidence and is reported separately"""
+    nd = cm.nd_mods()['nd']
+    bad = []
+    cases = [('x**2', lambda t: t ** 2, lambda x: 2.0), ('x**3', lambda t: t ** 3, lambda x: 6 * x), ('1/x', lambda t: 1 / t, lambda x: 2 / x ** 3),
+             ('x**-2', lambda t: t ** -2, lambda x: 6 / x ** 4)]
+    for x in (-2.0, -0.5, 1.5):
+        for name, f, exact in cases:
+            with cm.quiet():
+                v = float(nd.Derivative(f, method='multicomplex', n=2)(x))
+            if abs(v - exact(x)) > 1e-8 * (1 + abs(exact(x))):
+                bad.append("Derivative(%s, method='multicomplex', n=2)(%r) = %r, exact %r" % (name, x, v, exact(x)))
+    return bad
+
+
+def witness(job):
+    bad = witness_failures()
+    if not job.confirm('integer powers and division keep the second-derivative component at negative points (12 concrete runs)', not bad):
+        job.violation('witness', dict(key='C12:witness:negative-base-power', kind='bicomplex', op='witness', detail=bad[0]))
+
+
 def log_slice(job, mc):
     """branch logic of log on the slice z2 = 0 (the first-derivative configuration x + ih): exp(log(zeta)) == zeta for
     every z1 = a + ib with a != 0, from: sqrt(w^2) = +-w by the sign of Re w, arctan 0 = 0, exp(log w) = w,
@@ -444,6 +469,9 @@ def replay(cex):
     mc = cm.nd_mods()['mc']
     op = cex.get('op')
     k = cex.get('k', 0)
+    if op == 'witness':
+        bad = witness_failures()
+        return (True, bad[0]) if bad else (False, 'witness runs are exact')
     if op is None:
         return None, 'no operation recorded'
     with cm.quiet():
